@@ -402,47 +402,7 @@ theorem digits10_eq_spec (d : Nat) (h : d < 103) : d * 3 / 10 = Spec.log10Floor 
 /-- the approximation 3/10 for log10 2 stops being exact at 103 value bits -/
 theorem digits10_counterexample : ¬ (2 ^ 103 < 10 ^ (103 * 3 / 10 + 1)) := by decide
 
-/-! ### ratio (partial: the reduction of `ratio<N,D>` to lowest terms itself has no theorem yet) -/
-
-/-- the ordering traits compare the exact rational numbers whenever the two cross products fit `intmax_t`
-    (and are then never ill-formed) -/
-theorem ratioLess_eq (a b : Rat) (h1 : fits (a.num * b.den) = true) (h2 : fits (b.num * a.den) = true) :
-    ratioLess a b = .ok (Spec.less (a.num, a.den) (b.num, b.den)) ∧
-    ratioLessEqual a b = .ok (!Spec.less (b.num, b.den) (a.num, a.den)) ∧
-    ratioGreater a b = .ok (Spec.less (b.num, b.den) (a.num, a.den)) ∧
-    ratioGreaterEqual a b = .ok (!Spec.less (a.num, a.den) (b.num, b.den)) := by
-  unfold ratioLess ratioLessEqual ratioGreater ratioGreaterEqual cross Spec.less
-  simp only [ck_of_fits h1, ck_of_fits h2, bind, Except.bind]
-  refine ⟨trivial, ?_, trivial, ?_⟩
-  · show Except.ok _ = Except.ok _
-    congr 1
-    by_cases h : b.num * a.den < a.num * b.den <;> simp [h, Int.not_le.mpr, Int.not_lt.mp]
-  · show Except.ok _ = Except.ok _
-    congr 1
-    by_cases h : a.num * b.den < b.num * a.den <;> simp [h, Int.not_le.mpr, Int.not_lt.mp]
-
-/-- non-vacuity: 1/3 < 1/2 -/
-example : fits ((1 : Int) * 2) = true ∧ fits ((1 : Int) * 3) = true := by decide
-
-/-- when the unreduced intermediates fit, `ratio_add<R1,R2>` is `ratio<n1·d2 + n2·d1, d1·d2>`
-    (partial: what is missing is `mkRatio n d = lowest terms of n/d`) -/
-theorem ratioAdd_eq_mkRatio_partial (a b : Rat) (h1 : fits (a.num * b.den) = true) (h2 : fits (b.num * a.den) = true)
-    (h3 : fits (a.num * b.den + b.num * a.den) = true) (h4 : fits (a.den * b.den) = true) :
-    ratioAdd a b = mkRatio (a.num * b.den + b.num * a.den) (a.den * b.den) := by
-  unfold ratioAdd; simp only [ck_of_fits h1, ck_of_fits h2, ck_of_fits h4, bind, Except.bind, ck_of_fits h3]
-
-theorem ratioMul_eq_mkRatio_partial (a b : Rat) (h1 : fits (a.num * b.num) = true) (h2 : fits (a.den * b.den) = true) :
-    ratioMul a b = mkRatio (a.num * b.num) (a.den * b.den) := by
-  unfold ratioMul; simp only [ck_of_fits h1, ck_of_fits h2, bind, Except.bind]
-
-example : fits ((1 : Int) * 3) = true ∧ fits ((2 : Int) * 3) = true := by decide
-
-/-- the excluded class is inhabited: 1/2^62 + 1/2^62 = 1/2^61 is representable, tetl's `d1·d2` is not
-    (known finding F-C15-ratio-intermediate-overflow) -/
-theorem ratioAdd_overflow_counterexample :
-    (match ratioAdd ⟨1, 2 ^ 62, 1, 2 ^ 62⟩ ⟨1, 2 ^ 62, 1, 2 ^ 62⟩ with | .error _ => true | .ok _ => false) = true ∧
-    (match Spec.add (1, 2 ^ 62) (1, 2 ^ 62) with | .ok q => q == ((1 : Int), (2 : Int) ^ 61) | .error _ => false) = true := by decide
-
+/-! ### ratio: see the end of the file -/
 
 /-! ### non-vacuity: the hypotheses hold on non-trivial values -/
 
